@@ -41,10 +41,18 @@ def _canon_body(f):
                 r[J] = "j"
                 for w in walk(inner[0].a[2]):
                     if isinstance(w, X) and w.k == "while":
-                        augs = [q for q in w.a[1] if q.k == "aug" and q.a[1].k == "name"]
-                        if not augs:
+                        # the scan variable: `k += 1` or `k = k + 1`
+                        incs = [q.a[1].a[0] for q in w.a[1]
+                                if q.k == "aug" and q.a[1].k == "name"]
+                        for q in w.a[1]:
+                            if q.k == "assign" and len(q.a[0]) == 1 and \
+                                    q.a[0][0].k == "name" and q.a[1].k == "bin" and \
+                                    q.a[1].a[0] == "+" and q.a[0][0].a[0] in (
+                                        pp(q.a[1].a[1]), pp(q.a[1].a[2])):
+                                incs.append(q.a[0][0].a[0])
+                        if not incs:
                             continue
-                        K = augs[0].a[1].a[0]
+                        K = incs[0]
                         r[K] = "k"
                         for c in _conj(w.a[0]):
                             if c.k != "cmp":
